@@ -17,6 +17,7 @@ tie:    harness/c07_pip.cc builds seeded problems (1–3 variables, 0–2 parame
 A solve that does not return within the CPU limit is inconclusive (DESIGN §4 (viii)); it is counted.
 """
 import collections, hashlib, json, os, re
+from . import c07_core
 
 LEVEL = "proof"
 SCRATCH = ("fresh", "single", "initial")
@@ -283,6 +284,8 @@ def budget_of(kid, ngen, entry):
 
 def run(ctx):
     ctx.ensure_ppl()
+    if ctx.replay and json.load(open(ctx.replay)).get("stage") == c07_core.STAGE:
+        return c07_core.replay(ctx, json.load(open(ctx.replay)))   # a case of the stage 2 tie (solver core)
     broken = ctx.prove(["PPLV.Props.C07"])
     if ctx.tier == "thorough":
         broken += ctx.leanchecker(["PPLV.Props.C07"])
@@ -510,6 +513,8 @@ def run(ctx):
                                         "budgets_of_findings_met": budgets}
     ctx.cov["known_finding_cases"] = {k: len(v) for k, v in kf_cases.items()}
 
+    if not ctx.replay and not os.environ.get("C07_JOURNAL") and not measure:
+        broken += c07_core.run(ctx)        # stage 2: the solver core (tableau, pivot, signs, lexicographic choice, split, cuts)
     for b in broken:
         ctx.violation("proof obligation broken: " + b, {"obligation": b}, found_input=False)
 
